@@ -92,6 +92,22 @@ def check(chk):
     rs = cl.func('ResponseFuture.result')
     chk.judge('ResultSet(self, self._final_result)' in src(rs), 'C18.resultset', rs, 'each page result is wrapped in a ResultSet bound to this future', 'result wrapping changed')
 
+    # list mode (indexing, ==, len-like uses): every page is pulled first, through the paging iteration; only then does the set answer from its list
+    chk.rule('C18.listmode', '_enter_list_mode sets _list_mode only after _fetch_all() (which iterates through all pages while __iter__ still pages)')
+    elm = cl.func('ResultSet._enter_list_mode')
+    gel = CFG(elm)
+    fa_nodes = [n for n in gel.stmt_nodes() if n.kind == 'stmt' and any(isinstance(c, ast.Call) and src(c.func) == 'self._fetch_all' for c in ast.walk(n.ast))]
+    sets = [n for n in gel.stmt_nodes() if n.kind == 'stmt' and isinstance(n.ast, ast.Assign) and src(n.ast.targets[0]) == 'self._list_mode' and src(n.ast.value) == 'True']
+    if len(fa_nodes) != 1 or not sets:
+        raise AnalysisError('ResultSet._enter_list_mode: _fetch_all() / _list_mode = True not found')
+    it = cl.func('ResultSet.__iter__')
+    reads_flag = any(isinstance(x, ast.Attribute) and x.attr == '_list_mode' for x in ast.walk(it))
+    chk.judge(reads_flag and all(gel.dominates(fa_nodes[0], n) for n in sets), 'C18.listmode', elm, '_fetch_all() precedes _list_mode = True on every path',
+              'the flag is raised before the rows are fetched: __iter__ then answers from the current page only (list mode), so rs[i], rs == rows and len(list) see the first page and '
+              'the remaining pages are never requested')
+    fa = cl.func('ResultSet._fetch_all')
+    chk.judge('self._current_rows = list(self)' in src(fa), 'C18.listmode', fa, '_fetch_all materialises by iterating the set itself (page by page)', '_fetch_all no longer iterates through the pages')
+
     # the paging state travels in the request body: its position among the optional fields is the wire layout of QUERY / EXECUTE
     chk.rule('C18.wire', 'QUERY / EXECUTE bodies carry <paging_state> at the position and under the flag the specification gives')
     chk.borrow('C03', {'C03.layout': 'C18.wire'}, 'the server reads another field where the paging state is expected: page 2 restarts or fails')
